@@ -84,8 +84,6 @@ Qed.
 (* ---------------------------------------------------------------------- *)
 (* colours the 24-bit encoding can carry *)
 
-Definition hex6_b (s : str) : bool := (len s =? 6) && forallb is_hex_b s.
-
 Definition color_ok (c : option str) : bool :=
   match c with
   | None => true
